@@ -1,6 +1,21 @@
 /* wraps hostport.c textually to reach its static prefixmatch */
 #include "interpose.h"
+/* name resolution: a numeric host is resolved by the C library; any other name is "not found" without a question ever leaving the
+   process (the sandbox has no resolver to ask, and a harness must not wait for one) */
+static int h_getaddrinfo(const char *node, const char *service, const struct addrinfo *hints, struct addrinfo **res) {
+    struct addrinfo h2;
+    if (!node)
+        return getaddrinfo(node, service, hints, res);
+    if (hints)
+        h2 = *hints;
+    else
+        memset(&h2, 0, sizeof(h2));
+    h2.ai_flags |= AI_NUMERICHOST;
+    return getaddrinfo(node, service, &h2, res) ? EAI_NONAME : 0;
+}
+#define getaddrinfo h_getaddrinfo
 #include "hostport.c"
+#undef getaddrinfo
 #include "hcommon.h"
 
 /* prefixmatch <hexA> <hexB> <len> -> 0|1 */
